@@ -13,7 +13,10 @@ RULE = ("boundary sweep: limit in {0,1,2,10,1023,1024,1025} x pre-existing activ
         "reopen after a failed roll must seed len from the file; records made of a small piece followed by one "
         "encoder write of >= 1 KiB; records of multi-byte UTF-8 text split into 1-3 encoder chunks at arbitrary "
         "byte positions, sizes around the limit and around 1024. Every policy consultation reports "
-        "(len_estimate, metadata().len(), rolled). non-trivial = size trigger with at least one append; "
+        "(len_estimate, metadata().len(), rolled). In a quarter of the small-limit random histories half of the appends "
+        "carry a NESTED record: the roller (or the encoder) of the call appends it to a second size-triggered rolling "
+        "appender (limit 10, window 2) from inside the call; that appender must count and roll it like any record. "
+        "non-trivial = size trigger with at least one append; "
         "distinct = distinct case line")
 ASSUMPTIONS = list(rc.COMMON_ASSUMPTIONS)
 EXHAUSTIVE = {"quick": False, "thorough": False}
@@ -87,6 +90,7 @@ def cases(rng, tier):
         pre_sz = rng.choice([None, 0, 1, max(0, limit - 1) % 1200, limit % 1200, (limit + 1) % 1200])
         prev = [0] if pre_sz is None else [1, rc.rec_bytes(rng, "pre", pre_sz)]
         ops = []
+        nested = (not big) and limit < 100 and rng.chance(1, 4)
         for j in range(rng.range(3, 5 if big else 8)):
             if rng.chance(1, 6):
                 ops.append([1, rng.choice([1, 1, 0])])
@@ -96,10 +100,15 @@ def cases(rng, tier):
                 else:
                     lim = min(limit, 40)
                     sz = rng.choice([0, 1, 2, 3, max(0, lim - 1), lim, lim + 1, rng.below(12)])
-                ops.append(rc.op_append(rng, "r%d" % j, sz))
+                op = rc.op_append(rng, "r%d" % j, sz)
+                if nested and rng.chance(1, 2):
+                    # the roller (or the encoder) of this call appends a record to a SECOND size-triggered rolling
+                    # appender from inside the call: it must be counted and rolled there like any record
+                    op = [10, op[1], rc.rec_bytes(rng, "s%d" % j, rng.range(4, 9)), rng.choice([2, 2, 1])]
+                ops.append(op)
         out.append([[0, limit], rng.choice(ROLLERS + [[1, 7, 3, 0], [1, 1, 1, 1]]), prev, rng.choice([1, 1, 0]), ops])
     return out
 
 
 def nontrivial(c):
-    return c[0][0] == 0 and any(o[0] in (0, 7) for o in c[4])
+    return c[0][0] == 0 and any(o[0] in (0, 7, 10) for o in c[4])
